@@ -522,9 +522,20 @@ def run_race_engine(ctx, spec):
     os.makedirs(out)
     env = dict(os.environ, GORACE=f"halt_on_error=0 log_path={out}/race")
     t0 = time.time()
-    p = subprocess.run([os.path.join(CACHE, "harness_race"), "race", "--seconds", str(secs), "--known", "--out", out],
-                       env=env, stdout=subprocess.PIPE, stderr=subprocess.STDOUT, text=True, timeout=3000)
-    ctx.checker_cmds.append(f"GORACE=log_path=... .cache/harness_race race --seconds {secs} --known   # go build -race")
+    if spec.get("norace"):
+        # one workload with a model-free monitor, free-running on all cores, without the detector
+        try:
+            p = subprocess.run([os.path.join(CACHE, "harness"), "race", "--seconds", str(secs), "--only", spec["only"], "--out", out],
+                               env=env, stdout=subprocess.PIPE, stderr=subprocess.STDOUT, text=True, timeout=secs * 4 + 120)
+        except subprocess.TimeoutExpired as ex:
+            ctx.violation("stuck", f"the free-running workload '{spec['only']}' did not come back within {secs * 4 + 120} s: " + str(ex.stdout or "")[-600:],
+                          data={"engine": "race", "workload": spec["only"]})
+            return
+        ctx.checker_cmds.append(f".cache/harness race --seconds {secs} --only {spec['only']}   # free-running on {os.cpu_count()} cores")
+    else:
+        p = subprocess.run([os.path.join(CACHE, "harness_race"), "race", "--seconds", str(secs), "--known", "--out", out],
+                           env=env, stdout=subprocess.PIPE, stderr=subprocess.STDOUT, text=True, timeout=3000)
+        ctx.checker_cmds.append(f"GORACE=log_path=... .cache/harness_race race --seconds {secs} --known   # go build -race")
     if not os.path.exists(os.path.join(out, "summary.json")):
         ctx.violation("race", "the race workloads crashed: " + p.stdout[-1500:], data={"engine": "race"})
         return
@@ -548,6 +559,12 @@ def run_race_engine(ctx, spec):
             ctx.violation("race", f"data race between {key}", data={"engine": "race", "pair": key, "report": rep})
     for cls, keys in seen_cls.items():
         ctx.known.append(f"{cls} {classes[cls][1][:220]} [pairs seen this run: {'; '.join(keys[:6])}]")
+    for f in (s.get("invariant_violations") or []):
+        m = re.match(r"\[(C\d\d)\] ", f)
+        if m and m.group(1) == ctx.pid:
+            ctx.violation("invariant", f, data={"engine": "race", "failure": f})
+        else:
+            ctx.other.append({"concerns": [m.group(1) if m else "C10"], "what": f[:200]})
     for w in (s.get("stuck") or []):
         ctx.violation("deadlock", f"workload '{w}' did not terminate within 20 s after it was told to stop", data={"engine": "race", "workload": w})
     for pn in (s.get("panics") or [])[:3]:
@@ -709,10 +726,10 @@ def run_persist_engine(ctx, spec):
     own = {"trunc": "C13", "fault": "C14"}[kind]
     shown = 0
     for f in (s.get("failures") or []):
-        m = re.match(r"\[(C\d\d)\] ", f)
-        concerns = m.group(1) if m else own
-        if concerns != ctx.pid:
-            ctx.other.append({"concerns": [concerns], "what": f[:200]})
+        m = re.match(r"\[(C\d\d(?:,C\d\d)*)\] ", f)
+        concerns = m.group(1).split(",") if m else [own]
+        if ctx.pid not in concerns:
+            ctx.other.append({"concerns": concerns, "what": f[:200]})
             continue
         if shown < 6:
             ctx.violation(kind, f, data={"engine": kind, "seed": ctx.seed, "failure": f})
@@ -842,11 +859,13 @@ PROPS = {
                 rule="random op sequences over {delete, insert, put, merge} x {0,2,4,8-byte, bytes} x offset moves, written to the real buffer; every case is distinct by construction (independent PRNG streams) and non-trivial (>=1 op); the model must produce the same bytes"),
     "C06": dict(engines=[H("replica", 60, 800), S("rows,keys", 150, 3000, dfs_thorough=6000)],
                 rule="sequential: histories replayed on a second collection (channel clones or a serialized log file), replica dump compared; schedules: 2-3 writers over 1-2 blocks (random + exhaustive DFS in the thorough tier), replica fed in logger order; distinct = distinct schedule traces"),
-    "C08": dict(engines=[S("snap", 450, 6000, dfs_quick=150, dfs_thorough=8000), H("restore", 30, 300)],
+    "C08": dict(engines=[S("snap", 450, 6000, dfs_quick=150, dfs_thorough=8000), H("restore", 30, 300),
+                         dict(engine="persist", kind="trunc", quick=6, thorough=24)],
                 rule="a snapshot thread beside 2-3 committing writers (merges and overwrites, one or two blocks) at every yield point of the commit and snapshot protocols; the restored rows must be a prefix per block of the latch order containing every commit acknowledged before the snapshot began"),
     "C09": dict(engines=[S("rows", 250, 4000, dfs_quick=300, dfs_thorough=8000), H("values", 30, 300)],
                 rule="2-3 writers merging (additive and order-sensitive v*3+d) into overlapping rows of 1-2 blocks with readers; final value = fold of the committed deltas in latch order"),
-    "C10": dict(engines=[S("rows", 250, 4000, dfs_quick=300, dfs_thorough=8000), H("values", 30, 300)],
+    "C10": dict(engines=[S("rows", 250, 4000, dfs_quick=300, dfs_thorough=8000), H("values", 30, 300),
+                         dict(engine="race", quick=3, thorough=20, only="pairs", norace=True)],
                 rule="writers preserving a+b=100 on every row beside point and range readers reading a, yielding, reading b; every recorded schedule is also replayed through the latch protocol model; plus sequential histories of every column kind (every value a reader is handed is one some transaction committed)"),
     "C07": dict(engines=[H("restore", 60, 800), H("dense", 3, 24, per_shard=1), dict(engine="wire", quick=8, thorough=80, states_quick=12, states_thorough=120)],
                 rule="histories with snapshot->restore->continue cycles; non-trivial = a restore after >=2 commits"),
